@@ -309,6 +309,14 @@ Definition enc_cell (k : enck) : cellT := mkCell (enc_node k) (CSend [MStr false
 Definition handler_cell_gen (keeps_receiving : bool) : cellT := mkCell (handler_node keeps_receiving) (CRecv st0).
 Definition handler_cell : cellT := handler_cell_gen true.
 
+(* live tail: the ticker goroutine of QueryRangeService.Tail runs one pipeline per tick and encodes it like the streams
+   writer (error entry: onErr, drain, return); its consumer, the websocket loop of QueryRangeController.Tail, returns as
+   soon as a write fails or the context is done -- having deferred `go func(){ for range watcher.GetRes() {} }()` *)
+Definition ws_handler_node : nodeT :=
+  mkNode (fun canc s m => if canc then mkRR [] false (NStop true) else mkRR [m] false (NCont s)) (fun _ _ => mkCR [] false) all_ok.
+Definition tail_tick (opsl : list ops) : list cellT :=
+  recv_cell scan_node :: map (fun o => recv_cell (wrap_node o)) opsl ++ [enc_cell EncStreams; recv_cell ws_handler_node].
+
 Record pctx := mkP { p_fix : fpctx; p_limit : Z; p_aggfrom : Z; p_slen : Z; p_instant : bool }.
 
 Definition stages_of (sh : shape) (c : pctx) : list cellT :=
@@ -412,7 +420,7 @@ Definition prelude_of (q : request) : prelude :=
 Definition cursor_rows (q : request) : list msg :=
   map MRow (if q_fail_after q <? 0 then q_rows q else firstn (Z.to_nat (q_fail_after q)) (q_rows q)).
 
-Definition run_fuel : nat := 20000.
+Definition run_fuel : nat := N.to_nat 20000.
 
 Definition class_of_run (r : run_result) : oclass :=
   match r with RDone => O2xx | RCrash => OCrash | RStuck => OLeak | RFuel => OUnknown end.
